@@ -11,8 +11,8 @@ Import ListNotations.
 Local Open Scope Z_scope.
 
 (* every CSI final byte without intermediate: primitive calls <= 4 (n+1) scr — unconditionally after the clamp fixes
-   (SU SD ICH DCH IL DL CVT CBT CUU ...), for REP only when the count does not exceed the screen *)
-Theorem cost_bound : forall t p is_start ch n, Inv09 t -> 0 <= n -> nlen (nums p) <= n -> ~ KnownC03_rep t p ch ->
+   (SU SD ICH DCH IL DL CVT CBT CUU REP ...) *)
+Theorem cost_bound : forall t p is_start ch n, Inv09 t -> 0 <= n -> nlen (nums p) <= n ->
   0 <= iters (snd (csi_final_c t p is_start ch)) <= 4 * (n + 1) * scr t.
 Proof. exact cost_bound_l. Qed.
 (* CSI Pn SP @ (SL), CSI Pn SP A (SR), every other SP final: unconditional *)
@@ -50,13 +50,18 @@ Theorem sp_arms_only : forall inv t p ch, (ch =? 65) || (ch =? 64) = false -> st
   fst (csi_sp_c t p ch) = astep_gen inv (mkA t p) ch.
 Proof. exact sp_arms_only_l. Qed.
 
-(* ---- known class REP: the work is linear in the parameter ------------------------------------------------------------------------------ *)
-Theorem rep_linear : forall t c n, (exists t', fst (rep_c t c n) = ROk t') -> iters (snd (rep_c t c n)) = Z.max 0 n.
-Proof. exact rep_linear_l. Qed.
-(* `A CSI 1000 b` on a 2 x 1 screen (7 bytes): the bound of cost_bound is exceeded *)
-Theorem rep_refuted : Inv09 (init_term 2 1) /\ nlen (nums rep_witness_p) <= 7 /\
-  4 * (7 + 1) * scr (init_term 2 1) < iters (snd (csi_final_c (init_term 2 1) rep_witness_p false 98)).
-Proof. exact rep_refuted_l. Qed.
+(* ---- the former known class REP (repaired: at most terminal width x height copies) ------------------------------------------------------ *)
+(* after the fix the number of print_char calls is the parameter clamped to one screen *)
+Theorem rep_clamped : forall t c n, (exists t', fst (rep_c t c n) = ROk t') -> iters (snd (rep_c t c n)) = Z.max 0 (Z.min n (rep_limit t)).
+Proof. exact rep_clamped_l. Qed.
+(* the code BEFORE the fix (`rep_c_before_fix`: one print_char per count): linear in the parameter *)
+Theorem rep_linear_before_fix : forall t c n, (exists t', fst (rep_c_before_fix t c n) = ROk t') -> iters (snd (rep_c_before_fix t c n)) = Z.max 0 n.
+Proof. exact rep_linear_before_fix_l. Qed.
+(* `A CSI 1000 b` on a 2 x 1 screen (7 bytes): the old loop exceeded the bound of cost_bound; the repaired dispatcher prints 2 copies *)
+Theorem rep_before_fix_refuted : Inv09 (init_term 2 1) /\ nlen (nums rep_witness_p) <= 7 /\
+  4 * (7 + 1) * scr (init_term 2 1) < iters (snd (rep_c_before_fix (init_term 2 1) (print_cell (init_term 2 1) (last_char rep_witness_p)) (first_or (nums rep_witness_p) 1)))
+  /\ iters (snd (csi_final_c (init_term 2 1) rep_witness_p false 98)) = 2.
+Proof. exact rep_before_fix_refuted_l. Qed.
 (* known class hex-macro repeat: `!3000;41;` *)
 Theorem hexmacro_refuted : exists s, zlen s < 64 /\ 300 * zlen s < snd (hex_macro_t s HFirst false [] 0 [] 0).
 Proof. exact hexmacro_refuted_l. Qed.
@@ -125,7 +130,7 @@ Theorem alloc_bound_dollar : forall t p ch n, Inv09 t -> 0 <= n ->
 Proof. exact alloc_bound_dollar_pair_l. Qed.
 
 (* ---- (b) weighted iteration total of every CSI control function; the clip of the rectangular-area operations ------------------------------------------- *)
-Theorem ticks_bound : forall t p is_start ch n, Inv09 t -> 0 <= n -> nlen (nums p) <= n -> ch <> 98 ->
+Theorem ticks_bound : forall t p is_start ch n, Inv09 t -> 0 <= n -> nlen (nums p) <= n ->
   0 <= ticks (snd (csi_final_c t p is_start ch)) <= 8 * (n + 1) * (scr t * scr t).
 Proof. exact ticks_bound_l. Qed.
 Theorem ticks_bound_sp : forall t p ch, Inv09 t -> 0 <= ticks (snd (csi_sp_c t p ch)) <= scr t * scr t.
@@ -231,8 +236,8 @@ Proof. vm_compute. reflexivity. Qed.
 (* CSI 2;5 r CSI 2147483647 A : 12 + 1 + 4 scrolls of the cursor-up loop *)
 Example cuu_clamped : nth 1 (run_seq 80 25 [27; 91; 50; 59; 53; 114] [27; 91; 50; 49; 52; 55; 52; 56; 51; 54; 52; 55; 65]) 0 = 17.
 Proof. vm_compute. reflexivity. Qed.
-(* A CSI 3000 b: 3000 print_char calls (known class when the count exceeds tw*th = 2000) *)
-Example rep_linear_example : nth 1 (run_seq 80 25 [65] [27; 91; 51; 48; 48; 48; 98]) 0 = 3006.
+(* A CSI 3000 b on 80 x 25: 2000 print_char calls after the fix (3000 before) *)
+Example rep_clamped_example : nth 1 (run_seq 80 25 [65] [27; 91; 51; 48; 48; 48; 98]) 0 = 2006.
 Proof. vm_compute. reflexivity. Qed.
 (* ESC P 1;0;1!z 1B5B312A7A ESC \ CSI 1*z : the character-level model ends in the error value MacroNestingTooDeep (class 1), nothing allocated;
    the abstraction counts 16 levels x 5 characters and reports the abandoned chain *)
